@@ -4,7 +4,10 @@
 
 package syntax
 
-import "fmt"
+import (
+	"fmt"
+	"sort"
+)
 
 // Kinds of value or reference expressions.  These include all of
 // the builtin types as well as "array" and "null", and for references
@@ -360,4 +363,16 @@ func walkExp(exp Exp, visitor ExpVisitor, path string) error {
 		}
 	}
 	return nil
+}
+
+// sortedKeys returns the keys of the map literal in sorted order, so that
+// anything which iterates over the entries (in particular error reporting)
+// is repeatable.
+func (e *MapExp) sortedKeys() []string {
+	keys := make([]string, 0, len(e.Value))
+	for key := range e.Value {
+		keys = append(keys, key)
+	}
+	sort.Strings(keys)
+	return keys
 }
